@@ -246,10 +246,10 @@ func init() {
 			{Pkg: "flv", Func: "HarnessC07_FlvDemux", Stall: true, Labels: []string{"c07-flv-demux", "c07-flv-tag"}, Bound: "0..16 (thorough 0..24) arbitrary bytes, alone or after a well-formed header; tag sizes > 40 only for 41, 65536, 2^24-1"},
 			{Pkg: "flv", Func: "HarnessC07_FlvTags", Stall: true, Labels: []string{"c07-flv-tags"}, Bound: "audio and video packager Decode (and re-Encode, String()) on every byte string of 0..8 bytes"},
 			{Pkg: "flv", Func: "HarnessC07_FlvEnums", Labels: []string{"c07-flv-enums"}, Bound: "String/ToHz/OpusToHz/From/OpusFrom of every flv enum with the receiver symbolic over uint8"},
-			{Pkg: "aac", Func: "HarnessC07_Aac", Stall: true, Labels: []string{"c07-aac", "c07-aac-frame"}, Bound: "ADTS Decode (repeated on the remainder), ASC UnmarshalBinary, SetASC+Encode on every byte string of 0..12 bytes (thorough 0..16)"},
+			{Pkg: "aac", Func: "HarnessC07_Aac", Stall: true, Labels: []string{"c07-aac", "c07-aac-frame"}, Bound: "ADTS Decode (repeated on the remainder), ASC UnmarshalBinary, SetASC+Encode on every byte string of 0..12 bytes (thorough 0..14)"},
 			{Pkg: "aac", Func: "HarnessC07_AacEnums", Labels: []string{"c07-aac-enums"}, Bound: "all aac enum helpers, receiver symbolic over uint8"},
 			{Pkg: "avc", Func: "HarnessC07_Avc", Stall: true, Labels: []string{"c07-avc", "c07-avc-record", "c07-avc-sample"}, Bound: "NALU / record / sample (length size 1..4) UnmarshalBinary on every byte string of 0..10 bytes (thorough 0..14)"},
-			{Pkg: "websocket", Func: "HarnessC07_Websocket", TimeFixed: true, Stall: true, Labels: []string{"c07-websocket"}, Bound: "NextReader/Read until error over every byte string of 0..5 bytes (thorough 0..8, also with a read limit), both roles; deeper states are covered from arbitrary reader states by C14_Step"},
+			{Pkg: "websocket", Func: "HarnessC07_Websocket", TimeFixed: true, Stall: true, Labels: []string{"c07-websocket"}, Bound: "NextReader/Read until error over every byte string of 0..5 bytes (thorough 0..7, also with a read limit), both roles; deeper states are covered from arbitrary reader states by C14_Step"},
 			{Pkg: "https/jose/cipher", Func: "HarnessC07_KeyWrap", Stall: true, Labels: []string{"c07-keywrap", "c07-unwrap-ok", "c07-wrap-ok"}, Bound: "KeyUnwrap/KeyWrap on every input length 0..40 with symbolic bytes; block cipher stub with unconstrained output"},
 			{Pkg: "https/jose/cipher", Func: "HarnessC07_CBCHMAC", Stall: true, Labels: []string{"c07-cbchmac", "c07-cbc-ok"}, Bound: "cbcAEAD.Open with nonce length in {0,8,15,16,17}, ciphertext+tag length in {0,1,15,16,17,31,32,33,48}, aad 0-1 bytes; HMAC and block cipher stubs with unconstrained outputs (both tag outcomes explored)"},
 			{Pkg: "https/jose/cipher", Func: "HarnessC07_Unpad", Stall: true, Labels: []string{"c07-unpad", "c07-unpad-ok"}, Bound: "unpadBuffer on every buffer of length {0,1,15,16,17,32}"},
